@@ -29,9 +29,22 @@ class Unit:
         self.impls = data['impls']
         self.clap = data['clap']
         self.children = defaultdict(list)   # body path -> closures created lexically inside
+        gone = set(data.get('_gone', []))
+        into = defaultdict(list)             # inlined helper -> the functions it was spliced into
+        for caller, gs in self.inlined.items():
+            for g in gs:
+                if caller not in gone:
+                    into[g].append(caller)
         for b in self.bodies.values():
             if b.kind == 'closure' and b.raw.get('parent'):
-                self.children[b.raw['parent']].append(b.path)
+                par = b.raw['parent']
+                if par in gone and into.get(par):
+                    # the closure is created by the spliced copy of its parent now
+                    for caller in into[par]:
+                        self.children[caller].append(b.path)
+                    b.raw['parent'] = into[par][0]
+                else:
+                    self.children[par].append(b.path)
 
     def body(self, path):
         return self.bodies.get(path)
@@ -63,13 +76,6 @@ class Unit:
             out.append(c)
             if recursive:
                 out.extend(self.closures_of(c, True))
-        # the closures of the helpers that were inlined into `path` belong to it now
-        for g in self.inlined.get(path, []):
-            for c in self.children.get(g, []):
-                if c not in out:
-                    out.append(c)
-                    if recursive:
-                        out.extend(x for x in self.closures_of(c, True) if x not in out)
         # a new function that is only passed as a value (`retain(is_regular_file)`) plays the role of a closure of the function that mentions it
         for g, users in self.fn_values.items():
             if g in self.bodies and g not in out and (path in users or any(u in out for u in users)):
